@@ -831,6 +831,14 @@ func framedLength(n ssa.Value, b *ssa.BasicBlock) (bool, string) {
 			}
 		}
 	}
+	// the other statuses were dispatched one by one before this block
+	for _, ref := range *call.Referrers() {
+		if e2, ok := ref.(*ssa.Extract); ok && e2.Index == 1 {
+			if s, ok := valueSets(b.Parent(), e2, nil)[b]; ok && s.equal(rng(full, full)) {
+				return true, "pkgLen of ParsePackage where only PackageFull is left"
+			}
+		}
+	}
 	return false, ""
 }
 
